@@ -11,7 +11,8 @@
    Reverse scans are stated from an arbitrary start cursor: they return what lies strictly below it (with the
    empty cursor: nothing — the behaviour the repository's own tests fix; DESIGN.md S1). *)
 From ZV Require Import Common.Bytes Scan.Consts Scan.Model Scan.ProofsOrder Scan.ProofsIter Scan.ProofsRange Scan.Proofs
-     Scan.ProofsMerge Scan.ProofsCluster Scan.ProofsB64 Scan.ProofsCursor.
+     Scan.ProofsMerge Scan.ProofsCluster Scan.ProofsB64 Scan.ProofsCursor Scan.ProofsCodec.
+From ZV Require Codec.Spec Codec.Keys.
 From Coq Require Import Sorting.Sorted ZArith Permutation.
 Open Scope N_scope.
 
@@ -295,6 +296,52 @@ Theorem C13_separators : scan_node_sep = key_sep /\ scan_node_sep <> scan_cursor
 Proof. split; [reflexivity|discriminate]. Qed.
 Print Assumptions C13_separators.
 
+(* (12) on engine BYTES: the store is the byte encoding (the codec model of C12, coq/Codec) of an arbitrary
+   universe xs of well-formed data keys of ALL kinds (Codec.Spec.ekey). The scan model's encoders coincide with
+   C12's; C12's injectivity theorem (ekey_inj) identifies what is "stored under the addressed prefix". So:
+   H/S/ZSCAN return exactly the non-empty members s with (KColl dt table key s) in xs, SCAN/ADVSCAN exactly the
+   keys (KKV / KMeta of the type) of the addressed table in xs — matching, beyond the cursor, in byte order,
+   each once; nothing of another type, table or collection; no store hypothesis besides well-formedness and
+   byte order is left. *)
+Theorem C13_coll_scan_on_engine_bytes :
+  forall compile (xs : list Codec.Spec.ekey) dt t k pat m count (reverse : bool) start fuel,
+    Forall Codec.Spec.wf_ekey xs -> sorted_db (store_of xs) ->
+    is_coll_type dt = true -> ~ In key_sep t ->
+    N.of_nat (length t) < 65536 -> 0 < N.of_nat (length k) <= max_key_size ->
+    matcher compile pat = Some m -> (1 <= count)%Z ->
+    (length xs / eff_count count < fuel)%nat ->
+    exists pages,
+      iterate_coll compile fuel (store_of xs) dt t k true reverse start pat count = (pages, Done) /\
+      (forall s, In s (concat (map fst pages)) <->
+         (s <> [] /\ In (Codec.Spec.KColl dt t k s) xs /\ m s = true /\ beyond reverse start s = true)) /\
+      sorted (if reverse then ltr else ltf) (concat (map fst pages)) /\
+      (length pages <= length xs / eff_count count + 1)%nat.
+Proof. exact coll_scan_store. Qed.
+Print Assumptions C13_coll_scan_on_engine_bytes.
+
+Theorem C13_key_scan_on_engine_bytes :
+  forall compile (xs : list Codec.Spec.ekey) d table pat m count (reverse : bool) start fuel,
+    Forall Codec.Spec.wf_ekey xs -> sorted_db (store_of xs) -> ~ In key_sep table ->
+    matcher compile pat = Some m -> (1 <= count)%Z ->
+    (length xs / eff_count count < fuel)%nat ->
+    exists pages,
+      iterate_keys compile fuel (store_of xs) d reverse table start pat count = (pages, Done) /\
+      (forall raw, In raw (concat (map fst pages)) <->
+         (exists rk, raw = wrap_cursor table rk /\ In (key_of d table rk) xs /\ m raw = true /\
+                     beyond reverse (wrap_cursor table start) raw = true)) /\
+      sorted (if reverse then ltr else ltf) (concat (map fst pages)) /\
+      (length pages <= length xs / eff_count count + 1)%nat.
+Proof. exact key_scan_store. Qed.
+Print Assumptions C13_key_scan_on_engine_bytes.
+
+Theorem C13_encoders_are_C12s : forall dt t k s raw ty,
+  (is_coll_type dt = true -> coll_key dt t k s = Codec.Keys.coll_key dt t k s) /\
+  encode_kv_key raw = Codec.Keys.encode_kv_key raw /\
+  size_key ty raw = Codec.Keys.size_key ty raw /\
+  wrap_cursor t k = Codec.Keys.pack_redis_key t k.
+Proof. intros. repeat split. apply coll_key_same. Qed.
+Print Assumptions C13_encoders_are_C12s.
+
 (* ---------- non-vacuity: a concrete store ---------- *)
 (* hash t:h = {a, ab, b}, hash t:h2 = {a}, set t:h = {a}; KV keys t:a t:ab t:b t2:a u:a *)
 Definition ex_db : list bytes :=
@@ -353,3 +400,16 @@ Example C13_ex_cursor_text :
   decode_scan_cursor b64dec atoi ([116] ++ scan_node_sep :: encode_mcursor b64enc itoa [(0%nat, [97]); (1%nat, [97;98])])
   = Ok ([116], [(0%nat, [97]); (1%nat, [97;98])]).
 Proof. vm_compute. reflexivity. Qed.
+
+(* a universe with keys of several kinds whose byte image is in engine order; HSCAN t:h over it *)
+Definition ex_universe : list Codec.Spec.ekey :=
+  [ Codec.Spec.KTableMeta [116]; Codec.Spec.KKV [116] [97]; Codec.Spec.KKV [117] [97];
+    Codec.Spec.KColl hash_type [116] [104] [97]; Codec.Spec.KColl hash_type [116] [104] [98];
+    Codec.Spec.KColl hash_type [116] [104;50] [97];
+    Codec.Spec.KMeta hsize_type [116] [104]; Codec.Spec.KMeta hsize_type [116] [104;50];
+    Codec.Spec.KList [116] [108] 1000%Z; Codec.Spec.KColl set_type [116] [104] [97] ].
+Example C13_ex_universe :
+  is_sorted (store_of ex_universe) = true /\
+  iterate_coll mini_compile 5 (store_of ex_universe) hash_type [116] [104] true false [] [] 1 =
+    ([([[97]], [97]); ([[98]], [98]); ([], [])], Done).
+Proof. vm_compute. split; reflexivity. Qed.
